@@ -149,11 +149,18 @@ pub fn reset_sandbox(root: &Path, fl: &Flags, spec: &str) -> bool {
             }
         } else {
             let Some((p, h)) = item.split_once('=') else { return false };
-            let Some(c) = parse_content(h) else { return false };
             let path = root.join(p);
             if let Some(par) = path.parent() {
                 let _ = std::fs::create_dir_all(par);
             }
+            if let Some(target) = h.strip_prefix('@') {
+                // a symbolic link to a file of the same directory (named earlier in the spec)
+                if std::os::unix::fs::symlink(target, &path).is_err() {
+                    return false;
+                }
+                continue;
+            }
+            let Some(c) = parse_content(h) else { return false };
             if std::fs::write(&path, c).is_err() {
                 return false;
             }
@@ -363,9 +370,18 @@ pub fn req_line(toks: &[&str]) -> String {
 /// an upload that the client aborts: WRQ, `nblocks` full blocks, then an ERROR packet (or silence is not
 /// used: real time-outs are too slow); what is left in the sandbox shows clean-on-error / keep-on-error
 pub fn abort_line(toks: &[&str]) -> String {
-    if toks.len() != 6 {
+    // optional 7th token: the text of the aborting ERROR packet (hex, UTF-8)
+    if toks.len() != 6 && toks.len() != 7 {
         return "bad-op".into();
     }
+    let abort_msg: String = if toks.len() == 7 {
+        match unhex(toks[6]).and_then(|b| String::from_utf8(b).ok()) {
+            Some(m) => m,
+            None => return "bad-op".into(),
+        }
+    } else {
+        "verif: end".to_string()
+    };
     let (Some(root_b), Some(dgram), Ok(nblocks)) = (unhex(toks[1]), unhex(toks[4]), toks[5].parse::<usize>()) else {
         return "bad-op".into();
     };
@@ -401,7 +417,8 @@ pub fn abort_line(toks: &[&str]) -> String {
                     acks.push(format!("A{}", n));
                 }
             }
-            send_error(&sock, &from);
+            let e = Packet::Error { code: ErrorCode::NotDefined, msg: abort_msg.clone() };
+            let _ = sock.send_to(&e.serialize().unwrap(), from);
             // the worker removes (or keeps) the partial file asynchronously
             std::thread::sleep(ms(40, 600));
         }
